@@ -76,11 +76,19 @@ def eval_real(pt, case):
         from periodictable.formulas import formula
         kw = {"natural_density": case["density"]} if case.get("natural") else {"density": case["density"]}
         f = formula(f.structure, density=used * 1.75)
-    if mode == "wavelength":
-        res = nsf.neutron_scattering(f, wavelength=case["w"][0], **kw)
-        return used, atoms, [nc.scat_tuple(res)], list(case["w"])
-    if mode == "energy":
-        res = nsf.neutron_scattering(f, energy=case["w"][0], **kw)
+    if mode in ("wavelength", "energy"):
+        beam = {mode: case["w"][0]}
+        res = nsf.neutron_scattering(f, **beam, **kw)
+        # the SLD-only entry points take the same keywords and return the first member
+        case["_sld_entries"] = None
+        if res[0] is not None:
+            try:
+                alt = [nsf.neutron_sld(f, **beam, **kw), pt.neutron_sld(f, **beam, **kw)]
+                case["_sld_entries"] = ([float(v) for v in res[0]], [[float(v) for v in a] for a in alt])
+            except Exception as e:  # noqa
+                case["_sld_entries"] = "raises %s: %s" % (type(e).__name__, e)
+        if mode == "wavelength":
+            return used, atoms, [nc.scat_tuple(res)], list(case["w"])
         return used, atoms, [nc.scat_tuple(res)], [float(nsf.neutron_wavelength(case["w"][0]))]
     if mode == "default":
         # documented: "wavelength 1.798 : Neutron wavelength (default=1.798 Ang)"
@@ -126,6 +134,16 @@ def judge(run, pt, orc, case, reply, corr):
     density, atoms, real, ws = eval_real(pt, case)
     model = model_outcomes(case, reply)
     N = nc.number_density(pt, atoms, density)
+    se = case.pop("_sld_entries", None)
+    if isinstance(se, str):
+        run.violation("neutron_sld with the keywords neutron_scattering accepts %s" % se, case, site="neutron_sld")
+    elif se is not None:
+        ref, alts = se
+        for name, alt in zip(("nsf.neutron_sld", "periodictable.neutron_sld"), alts):
+            if not all(close(a, b, rel=1e-12, abs_=0.0) or a == b for a, b in zip(ref, alt)):
+                run.violation("%s(%s=...) is %r, neutron_scattering(...)[0] is %r" % (name, case["mode"], alt, ref),
+                              case, site="neutron_sld")
+                break
     for i, (r, m) in enumerate(zip(real, model)):
         if not nc.scat_close(r, m, N):
             run.disagree(corr, case, m, r, entry=i)
